@@ -3,6 +3,8 @@ package jschema
 import (
 	"encoding/json"
 	"fmt"
+	"sort"
+	"strings"
 
 	schema "github.com/jsightapi/jsight-schema-core"
 	"github.com/jsightapi/jsight-schema-core/bytes"
@@ -227,6 +229,29 @@ func (s *JSchema) CollectUserTypes() {
 	}
 
 	for _, str := range collectUserTypes(node) {
+		s.UserTypesNamesUsed.Add(str)
+	}
+
+	// A rule-set of an "or" rule that has more than the "type" rule lives in an
+	// unnamed type of its own: the names used there belong to the schema text too.
+	types := s.Inner.TypesList()
+	unnamed := make([]string, 0, len(types))
+	for name := range types {
+		if strings.HasPrefix(name, "#") {
+			unnamed = append(unnamed, name)
+		}
+	}
+	sort.Strings(unnamed)
+
+	var nested []string
+	for _, name := range unnamed {
+		if typ, ok := types[name]; ok && typ.Schema != nil && typ.Schema.RootNode() != nil {
+			nested = append(nested, collectUserTypes(typ.Schema.RootNode())...)
+		}
+	}
+	// The names of unnamed types say nothing about the order in the text.
+	sort.Strings(nested)
+	for _, str := range nested {
 		s.UserTypesNamesUsed.Add(str)
 	}
 }
